@@ -52,6 +52,6 @@ try:
     meta["confirmed"] = res
 finally:
     subprocess.run(f"git -C /repo worktree remove --force {wt}", shell=True)
-    shutil.rmtree(f"/verif/.build/alt-tmp_seeded_wt_{sid}", ignore_errors=True)
+    shutil.rmtree("/verif/.build/alt-tmp_seeded_wt_" + sid.replace("-", "_"), ignore_errors=True)
 json.dump(meta, open(f"{d}/meta.json", "w"), indent=1)
 print(sid, json.dumps(res), "detected=" + str(meta["check"]["detected"]), meta["check"]["lines"][:2])
